@@ -781,6 +781,7 @@ class StmtMixin:
         key = self.loop_key(s)
         okey = f"{key}#{self.loop_ordinals.get(id(s), 1)}"
         lc = self.loop_contract(okey) or self.loop_contract(key)
+        self.loop_keys_seen.update((key, okey))
         if self.loop_contract(okey):
             key = okey
         invs = lc.get("invariants", [])
@@ -898,6 +899,7 @@ class StmtMixin:
             raise Unsupported("while/else")
         key = "while@" + ast.unparse(s.test)[:40]
         lc = self.loop_contract(key) or self.loop_contract("while")
+        self.loop_keys_seen.update((key, "while"))
         invs = lc.get("invariants", [])
         pre_env = dict(st0.env)
         names = self.assigned_names(s.body)
